@@ -1,6 +1,6 @@
 ----------------------------- MODULE Conf_Cast5 -----------------------------
 EXTENDS Cast5, Json, IOUtils
-VARIABLES l, inst
+VARIABLES tpos, inst
 Rec == ndJsonDeserialize(IOEnv.TRACE)
 OSched(t, k, x) == Cast5Sched(t, k, x)
 OEnc(ks, b) == Cast5Enc(ks, b)
